@@ -38,6 +38,8 @@ CHECKS = {
          "ledger: all sequences up to depth 3 / 5 over deposits (0, 1, 9000 GAS, 9000 GAS+1; receiver data nil/20/19 bytes/ignore marker; foreign signer), direct and non-GAS payment-hook calls, withdraw (-1,0,1,9000,9001; owner/stranger), cheque, candidate add/remove, fee changes; contract GAS == received - cheques, exact fees to the right payees, Deposit notification <=> GAS transfer, refused => empty diff on contracts and GAS. emit: Alphabet contract index {0,2} x Inner Ring size 1..7 x g in [0,256]/[0,4096] plus powers of 2/10 boundaries up to 10^12 x signer {own node, other node, Alphabet multisig, stranger}: exact shares, conservation, g<2 faults; Proxy/Processing/Alphabet x {GAS, NEO, non-GAS contract} acceptance", "4.19"),
  "C20": ("chainmc", "five explicit-state BFS explorations (Reputation, Audit, container size estimations, NeoFSID, Netmap/NeoFS configuration) against multiset/map models with all-combination read-back",
          "all put sequences up to depth 3..4 / 4..6 per store over epochs {0,1,127,128,255,256,257,65535,65536} (encodings that are prefixes of one another), 2 containers, 2-3 nodes/peers/owners, 2 values, configuration keys {'',a,ab,abc,b}; after every step every getter and listing for every (epoch, container, node, owner, key) combination; estimation access rules (node of the previous map, witnessed, existing container), audit access rules (Inner Ring member, witnessed), cleanup deltas 3/4 on put and on tick incl. a raw storage scan; an extra list element is tolerated only when explained by the listed epoch-prefix finding", "4.20"),
+ "C03": ("chainmc", "exhaustive grid: every method of the eleven manifests compiled from the tree x eight signer sets x committee sizes {1,3,4,7}, each case executed from one prepared base state, full storage/notification/token diff oracle",
+         "2752 cases: ~75 non-safe method rows (a hand-written table gives the argument vector and the documented witness requirement; manifest methods without a row are reported as uncovered, never failed) x {stranger, one Alphabet member, Alphabet 2/3+1, committee majority, named key, named key+Alphabet, named key+majority, floor(2n/3) single members}: insufficient witnesses => empty diff on all contracts, no notification, no GAS/NEO/NEOFS movement; sufficient => HALT (update: past authorisation, stopped by the version gate); ~90 safe-method rows with all witnesses => empty diff; verify of Proxy/Alphabet/Processing accepts exactly the documented multi-signatures", "4.3"),
 }
 
 NOT_YET = "check not built yet in this revision (work in progress; see DESIGN.md section 10)"
